@@ -39,6 +39,7 @@ ENCODED = [
     "tensorly.decomposition._parafac2._project_tensor_slices",
     "tensorly.solvers.nnls.hals_nnls",
     "tensorly.regression.cp_regression.CPRegressor.fit",
+    "tensorly.decomposition._tr_als.tensor_ring_als",
     "tensorly.tenalg.core_tenalg.mttkrp.unfolding_dot_khatri_rao",
     "tensorly.tenalg.core_tenalg._khatri_rao.khatri_rao",
 ]
@@ -49,7 +50,7 @@ BOUNDS = {
 OUTSIDE = [
     "convergence; conditioning beyond non-singularity (the solve contract A x = b presupposes a unique solution)",
     "Ky Fan / Procrustes optimality of the SVD-based block updates (SVD contract)",
-    "tensor-ring ALS, CMTF and the Tucker regressor's ridge ALS (not encoded in this module; the CP regressor is, with at most one output mode)",
+    "CMTF and the Tucker regressor's ridge ALS (not encoded in this module; the CP regressor is, with at most one output mode)",
     "the consequence 'reported errors are non-increasing' combines this with C06",
 ]
 TRUSTED = ["z3", "solve contract (A x = b)", "SVD contract for HOOI/PARAFAC2 block optimality", "generic lemmas proved by z3 in this run (I1 per shape, 1-D clipped quadratic)"]
@@ -85,6 +86,9 @@ def configs(tier):
     # (vector samples with scalar targets raise inside fit: known finding of C19, not a configuration here)
     for xs, ys, R in [((2, 2), (), 1), ((2,), (2,), 1), ((2,), (2,), 2), ((2, 2), (2,), 1)] + ([] if q else [((2, 2), (), 2), ((2, 2), (2,), 2)]):
         add("cp_regressor", xs=xs, ys=ys, R=R, ns=3)
+    for shp, rank in [((2, 2, 2), [1, 2, 1, 1]), ((2, 2, 2), [2, 1, 1, 2])] + ([] if q else [((2, 3, 2), [1, 1, 2, 1]), ((2, 2, 2), [2, 1, 2, 2])]):
+        for ls in ("normal_eq", "lstsq"):
+            add("tr_als", shape=shp, rank=rank, ls=ls)
     add("lemma_1d")
     add("linesearch_accept", shape=(2, 2, 2), R=1, mode="fork")
     return out
@@ -561,3 +565,58 @@ def h_cp_regressor(E, cfg):
             E.prove_eq(f"block{i}/system_matrix_is_ridge_gram", A_code, A)
             E.prove_eq(f"block{i}/rhs_is_design_transpose_times_targets", B_code, B)
             W[i] = out.T
+
+
+# ------------------------------------------------------------------------------------ tensor-ring ALS
+def h_tr_als(E, cfg):
+    """each core update of tensor_ring_als is a stationary point of the dense objective in that core (given the kernel's contract:
+    normal equations of the system the code handed to solve / lstsq), i.e. the exact block minimiser of a convex quadratic"""
+    from vt import backend, sym
+    from tensorly.decomposition import tensor_ring_als
+    from props.c03 import d_tr
+
+    shp, rank, ls = cfg["shape"], list(cfg["rank"]), cfg["ls"]
+    n = len(shp)
+    if not E.symbolic:
+        X = np.asarray(E.real("X", shp), dtype=float)
+        ok = True
+        rng = np.random.RandomState(3)
+        for trial in range(6):
+            Xc = X + (rng.randn(*shp) if trial else 0)
+            errs = []
+            try:
+                tensor_ring_als(Xc, list(rank), ls_solve=ls, n_iter_max=8, tol=0, random_state=9, callback=lambda tr, e: errs.append(float(e)))
+            except Exception:
+                continue
+            if any(np.isfinite(a) and np.isfinite(b) and b > a * (1 + 1e-7) + 1e-12 for a, b in zip(errs, errs[1:])):
+                ok = False
+        for d in range(n):
+            E.prove(f"block{d}/stationary_in_updated_core", ok)
+        E.prove("mirror_matches_returned_cores", ok)
+        E.prove("one_kernel_call_per_block", ok)
+        return
+    backend.configure(solve="contract", lstsq="contract")
+    X = E.real("X", shp)
+    res = tensor_ring_als(np.array(X), list(rank), ls_solve=ls, n_iter_max=1, tol=0, random_state=9)
+    kind = "solve" if ls == "normal_eq" else "lstsq"
+    calls = [c for c in sym.CTX.stub_calls if c[0] == kind]
+    E.prove("one_kernel_call_per_block", len(calls) == n)
+    rs = backend.s_check_random_state(9)
+    cores = [np.asarray(rs.random_sample((rank[i], m, rank[i + 1])), dtype=object) for i, m in enumerate(shp)]
+    Xo = np.asarray(X, dtype=object)
+    for d in range(n):
+        sol = np.asarray(calls[d][2], dtype=object)
+        cores[d] = np.transpose(sol.reshape(rank[d], rank[d + 1], shp[d]), (0, 2, 1))
+        dense = d_tr(cores)
+        resid = Xo - dense
+        conds = []
+        for a in range(rank[d]):
+            for i in range(shp[d]):
+                for b in range(rank[d + 1]):
+                    basis = np.zeros((rank[d], shp[d], rank[d + 1]), dtype=object)
+                    basis[a, i, b] = 1
+                    coef = d_tr(cores[:d] + [basis] + cores[d + 1 :])
+                    g = sum(resid[idx] * coef[idx] for idx in np.ndindex(*shp) if idx[d] == i)
+                    conds.append(E.eq(g, 0))
+        E.prove(f"block{d}/stationary_in_updated_core", conds, groups=(kind,))
+    E.prove("mirror_matches_returned_cores", [E.eq_arrays(a, b) for a, b in zip(list(res), cores)])
